@@ -393,7 +393,18 @@ class MessdoneHooks(SendHooks):
     def prim_substdio_get(self, E, x, args):
         return self.clean_answer(E, x, args)
 
+    def prim_pqadd(self, E, x, args):
+        return [Outcome(ret=TOP, sets={'$pqadd': fs(1)}, log='pqadd()')]
+
     def on_return(self, E, fn, val):
+        if fn.name != 'messdone':
+            return
+        alive = g1(E, "$stat:('chan', 0)") == 'exists' or g1(E, "$stat:('chan', 1)") == 'exists' or g1(E, '$stat:todo') == 'exists'
+        nins = sum(g1(E, k, 0) or 0 for k in list(E.store) if k.startswith('$ins:'))
+        if alive:
+            self.site('md:a-message-that-still-has-a-channel-file-is-left-alone', None, g1(E, '$pqadd', 0) != 1 and nins == 0,
+                      'messdone finds local=%s remote=%s todo=%s and schedules the message again (pqadd=%s, queue inserts %s): the channel that is still going already has its entry or its open job - a second entry starts a second pass over the same file, and a recipient whose delivery is in flight is attempted twice' % (
+                          g1(E, "$stat:('chan', 0)"), g1(E, "$stat:('chan', 1)"), g1(E, '$stat:todo'), g1(E, '$pqadd', 0), nins), E)
         # schedule conservation: the entry was taken off pqdone by the caller
         silent_ok = (g1(E, "$stat:('chan', 0)") == 'exists' or g1(E, "$stat:('chan', 1)") == 'exists' or g1(E, '$stat:todo') == 'exists'
                      or g1(E, '$stat:info') == 'noent' or g1(E, '$infogone', 0) == 1)
@@ -1624,6 +1635,8 @@ class PqaddHooks(SendHooks):
         if stats.get('info') == 'noent' or stats.get('todo') == 'exists':
             self.site('pqadd:no-schedule-without-info-or-with-todo', None, sum(ins.values()) == 0, 'inserts %s with info=%s todo=%s' % (ins, stats.get('info'), stats.get('todo')), E)
             return
+        self.site('pqadd:schedules-only-after-finding-no-todo-file', None, stats.get('todo') == 'noent' or sum(ins.values()) == 0,
+                  'inserts %s with info=%s and todo never looked at (%s): a message whose preprocessing a crash interrupted - todo/<id> still there, info and the channel files half written - must be left to todo_do, which rebuilds those files; scheduling it here opens a job on files that are about to be replaced' % (ins, stats.get('info'), stats.get('todo')), E)
         c0, c1 = stats.get("('chan', 0)"), stats.get("('chan', 1)")
         want = {}
         if c0 == 'exists':
@@ -2553,3 +2566,38 @@ def effect_sites(db):
     # markdone writes exactly one byte "D" at pos
     out['effect:markdone-writes-one-byte-D-at-pos'] = markdone_site(db, prog)
     return out
+
+
+# =============================================================================== job slots
+def job_slot_sites(db, rep):
+    """job_open() on a two-slot table whose free slot still holds what the previous message left in it: the new job starts
+    with nothing to do counted and the end-of-file flag clear, whatever the slot held; a full table gives -1 and changes nothing"""
+    from rules import libtab as _lt
+    prog = db.program('qmail-send')
+    fn = prog.fn('job_open', 'qmail-send.c')
+    bad = None
+
+    def table(free1):
+        st = {'G:jo': fs(('&', 'JO[0]')), 'G:numjobs': fs(2)}
+        for k, (refs, ident, chan, ntodo, eof) in enumerate(((1, 8, 0, 2, 0), (0 if free1 else 2, 9, 0, 3, 1))):
+            st.update({'JO[%d].refs' % k: fs(refs), 'JO[%d].id' % k: fs(ident), 'JO[%d].channel' % k: fs(chan), 'JO[%d].numtodo' % k: fs(ntodo), 'JO[%d].flaghiteof' % k: fs(eof),
+                       'JO[%d].flagdying' % k: fs(1)})
+        return st
+    for free1 in (True, False):
+        st = table(free1)
+        st.update({0: fs(55), 1: fs(1)})
+        H = _lt._run_conc(db, rep, prog, fn, st, 'job_open')
+        if len(H.ends) != 1:
+            raise AnalysisBroken('job_open: %d ends' % len(H.ends))
+        end, val, tr = H.ends[0]
+        slot1 = {f: _lt.one(end.get('JO[1].' + f)) for f in ('refs', 'id', 'channel', 'numtodo', 'flaghiteof')}
+        slot0 = {f: _lt.one(end.get('JO[0].' + f)) for f in ('refs', 'id', 'channel', 'numtodo', 'flaghiteof')}
+        if free1:
+            ok = _lt.one(val) == 1 and slot1 == {'refs': 1, 'id': 55, 'channel': 1, 'numtodo': 0, 'flaghiteof': 0} and slot0 == {'refs': 1, 'id': 8, 'channel': 0, 'numtodo': 2, 'flaghiteof': 0}
+            if not ok and bad is None:
+                bad = 'job_open(55, 1) into a slot last used by a message that reached the end of its file with 3 recipients counted: returns %s, slot = %s; documented: a fresh job - references 1, nothing counted, end of file not seen (a stale end-of-file flag lets job_close() unlink a channel file whose pass stopped on an error)' % (_lt.one(val), slot1)
+        else:
+            ok = _lt.one(val) == -1 and slot1 == {'refs': 2, 'id': 9, 'channel': 0, 'numtodo': 3, 'flaghiteof': 1}
+            if not ok and bad is None:
+                bad = 'job_open with every slot in use returns %s and leaves slot 1 = %s' % (_lt.one(val), slot1)
+    return {'job_open:a-recycled-slot-starts-clean(numtodo=0,flaghiteof=0)': (bad is None, 'qmail-send.c:job_open', bad or 'free stale slot, full table', [])}
